@@ -445,7 +445,9 @@ pub fn statics(bin: &str, input: &str, output: &str, dir: &str) -> Value {
 	let server = Server::start(bin, &args);
 	let mut client = server.as_ref().map(|s| Client::new(s.port));
 	for (i, c) in cases.iter().enumerate() {
-		let segs: Vec<&str> = c["segs"].as_array().unwrap().iter().map(|s| s.as_str().unwrap()).collect();
+		// "ABS" stands for the absolute path of <dir>/p2 (without its leading slash: the slashes come from the empty segments)
+		let abs = base.to_str().unwrap().trim_start_matches('/').to_string();
+		let segs: Vec<&str> = c["segs"].as_array().unwrap().iter().map(|s| if s == "ABS" { abs.as_str() } else { s.as_str().unwrap() }).collect();
 		let mount = c["mount"].as_str().unwrap();
 		let target = format!("{}/{}", if mount.is_empty() { String::new() } else { format!("/{mount}") }, segs.join("/"));
 		// content negotiation of static files (beyond C07): the client's Accept-Encoding varies with the case
